@@ -273,3 +273,27 @@ Proof.
   unfold opt. intro H. destruct (opt_scan_spec w args 0 0) as [E|[i [a [Hn [Ha Hv]]]]]; [congruence|].
   exists i, a. repeat split; auto.
 Qed.
+
+(* a frame header announcing an impossible size is rejected before any body byte is read *)
+Lemma readInteger_any z s n rest :
+  - two63 <= z < two63 -> win s = [] -> stream n = format_int z ++ crlf ++ rest ->
+  exists s' n', readInteger s n = Some (Some z, s', n') /\ win s' = [] /\ stream n' = rest.
+Proof.
+  intros Hz Hw Hs. unfold readInteger.
+  destruct (format_int_noLF z Hz) as [_ Hd].
+  destruct (readLine_spec (format_int z) s n CR rest Hd CR_noLF Hs) as [s' [n' [R [W St]]]].
+  rewrite R. rewrite W, Hw. cbn [app]. rewrite parse_format_int by exact Hz.
+  eexists. eexists. split; [reflexivity|]. split; [apply win_malloc | exact St].
+Qed.
+Theorem oversize_bulk_rejected z s n rest :
+  - two63 <= z < two63 -> (z < 0 \/ max_bulk < z) -> win s = [] ->
+  stream n = x24 :: format_int z ++ crlf ++ rest ->
+  readBulk s n = BErr.
+Proof.
+  intros Hz Hbad Hw Hs. unfold readBulk.
+  destruct (readByte_step s n x24 _ Hs) as [s1 [n1 [R1 [W1 S1]]]]. rewrite R1, W1, Hw. cbn [app].
+  change (byte_eqb x24 x24) with true. cbn [negb].
+  destruct (readInteger_any z (malloc s1) n1 rest Hz (win_malloc s1) S1) as [s2 [n2 [R2 [W2 S2]]]].
+  rewrite R2.
+  assert (C : ((z <? 0) || (z >? max_bulk)) = true) by lia. now rewrite C.
+Qed.
